@@ -2,6 +2,7 @@
 // Elementary: every (bound parameter, value, queried parameter) triple.  General: every binding sequence up to
 // the bound (including rebinding), every parameter queried after every step, against std::map last-write-wins.
 #include <map>
+#include <memory>
 #include <string>
 #include <vector>
 
@@ -166,6 +167,71 @@ namespace {
       }
    }
 
+   // Many elementary substitutions from ONE Lexicon (each over its own parameter), all queried again afterwards.
+   void many_elementary(int n)
+   {
+      ipr::impl::Lexicon lex;
+      ipr::impl::Translation_unit unit{ lex };
+      auto* m = lex.make_mapping(*unit.global_region(), ipr::Mapping_level{ 1 });
+      std::vector<const ipr::Parameter*> ps;
+      std::vector<const ipr::Expr*> vs;
+      std::vector<const ipr::Substitution*> ss;
+      for (int i = 0; i < n; ++i) {
+         ps.push_back(m->param(lex.get_identifier(std::u8string(u8"p") + char8_t('a' + i % 26) + char8_t('a' + i / 26 % 26) + char8_t('a' + i / 676 % 26)), lex.int_type()));
+         vs.push_back(lex.make_literal(lex.int_type(), std::u8string(1, char8_t('0' + i % 10))));
+         ss.push_back(lex.make_elementary_substitution(*ps.back(), *vs.back()));
+         rep.count("transitions");
+      }
+      for (int i = 0; i < n; ++i) {
+         rep.count("transitions", 3);
+         const ipr::Substitution& sub = *ss[std::size_t(i)];
+         const int other = (i + 1) % n, far = (i + 256) % n;
+         if (&sub[*ps[std::size_t(i)]] != vs[std::size_t(i)]) { fail("C16:elementary:in-domain", { i % (NP * NV) }, 0, "elementary substitution #" + std::to_string(i) + " of " + std::to_string(n) + " made by one Lexicon no longer maps its parameter to its value", 0); break; }
+         if (&sub[*ps[std::size_t(other)]] != static_cast<const ipr::Expr*>(ps[std::size_t(other)]) or &sub[*ps[std::size_t(far)]] != static_cast<const ipr::Expr*>(ps[std::size_t(far)])) { fail("C16:elementary:out-of-domain", { i % (NP * NV) }, 0, "elementary substitution #" + std::to_string(i) + " of " + std::to_string(n) + " rewrites a parameter outside its domain", 0); break; }
+      }
+      rep.count("states", n);
+      rep.count("traces");
+   }
+
+   // General substitutions while OTHER Lexicons come and go: every binding sequence of length <= 3, with a second Lexicon
+   // created before step i and destroyed before step j (every i <= j), and a general substitution of its own in between.
+   void with_other_lexicons()
+   {
+      long long idx = 0;
+      for (int d = 1; d <= 3; ++d) {
+         std::vector<int> h(std::size_t(d), 0);
+         while (true) {
+            for (int born = 0; born <= d; ++born)
+               for (int dies = born; dies <= d; ++dies) {
+                  if (not opt.mine(idx++)) continue;
+                  World w;
+                  auto* gs = w.lex.make_general_substitution();
+                  const ipr::Substitution& s = *gs;
+                  std::unique_ptr<World> other;
+                  std::map<int, int> model;
+                  for (int i = 0; i <= d; ++i) {
+                     if (i == born) { other = std::make_unique<World>(); other->lex.make_general_substitution()->subst(*other->P[0], *other->V[0]).subst(*other->P[1], *other->V[1]); }
+                     if (i == dies) other.reset();
+                     if (i == d) break;
+                     gs->subst(*w.P[std::size_t(h[std::size_t(i)] / NV)], *w.V[std::size_t(h[std::size_t(i)] % NV)]);
+                     model[h[std::size_t(i)] / NV] = h[std::size_t(i)] % NV;
+                     rep.count("transitions");
+                     for (int q = 0; q < NP; ++q) {
+                        auto it = model.find(q);
+                        const ipr::Expr* want = it == model.end() ? static_cast<const ipr::Expr*>(w.P[std::size_t(q)]) : w.V[std::size_t(it->second)];
+                        if (&s[*w.P[std::size_t(q)]] != want) { fail(it == model.end() ? "C16:general:out-of-domain" : "C16:general:in-domain", { h.begin(), h.begin() + i + 1 }, q, "with another Lexicon created before step " + std::to_string(born) + " and destroyed before step " + std::to_string(dies) + ", a general substitution answers wrongly", 1); i = d; break; }
+                     }
+                     rep.count("states");
+                  }
+                  rep.count("traces");
+               }
+            int i = d - 1;
+            while (i >= 0 and ++h[std::size_t(i)] == NP * NV) h[std::size_t(i--)] = 0;
+            if (i < 0) break;
+         }
+      }
+   }
+
    void enumerate(int depth)
    {
       std::vector<int> h;
@@ -209,6 +275,8 @@ int main(int argc, char** argv)
    const int depth = opt.thorough() ? 5 : 4;
    enumerate(depth);
    enumerate_interleaved(opt.thorough() ? 6 : 5);
+   with_other_lexicons();
+   if (opt.shard == 1 % opt.shards) many_elementary(opt.thorough() ? 70000 : 1100);
    if (opt.shard == 0) {
       rep.info("bounds", vf::JObj{}.num("parameters", NP).num("values", NV).num("max_binding_sequence_length", depth)
                             .num("interleaved_operation_history_depth", opt.thorough() ? 6 : 5).str("parameters_from", "three parameter lists, two at the same level (members share level+position pairwise), three parameters share a name; one value is itself a parameter").done());
